@@ -33,5 +33,6 @@ ResultsT(c) ==
         byHeader == c.header = "absent" \/ c.header = "true"
         byLists == IF allowPresent THEN CutHost(c) \in allowRaw
                    ELSE (~(blockPresent /\ (IF TBlockInverted THEN ~inBlock ELSE inBlock))) /\ ExternalT(c) = "yes"
-    IN  {IF byHeader /\ byLists THEN "yes" ELSE "no"}
+    IN  IF c.envform = "allow-empty" THEN {"no"}        \* "".split(",") = [""]: an allow list whose only item matches no destination
+        ELSE {IF byHeader /\ byLists THEN "yes" ELSE "no"}
 ================================================================================
